@@ -3,6 +3,7 @@ import itertools
 from .. import common as C, structs as S, valgen as V, seqgen as G, refcodec as R
 
 LEAN_MODULES = ["ZvtVerif.Properties.C06", "ZvtVerif.Properties.C06C"]
+TRANSLATED = {"structs", "sequences"}      # translated tables this property consumes (a translator problem elsewhere does not break its tie)
 ASSUMPTIONS = ["scripted terminal as in C05; a truncated packet is always followed by the end of the connection"]
 
 
